@@ -112,7 +112,10 @@ class Recorder:
                 return ListV(items)
             return ListV([Const('ab'), Const(' '), mk('SLine', Const(2)), Const('c '), mk('SAnnotationPush', ann), Const('d'),
                           mk('SAnnotationPop', ann), Const('  '), mk('SLine', Const(4)), mk('SLine', Const(0)), Const('e')])
-        return Sym('SDOCS#%d' % len(self.log))
+        # a short stream under its own name: an entry point may hand it to the renderer as it is (recorded) or walk it itself
+        mk = lambda cls, *args: it.construct(TypeV(cls), list(args), {}, None)
+        from engine.interp import NamedListV
+        return NamedListV('SDOCS#%d' % len(self.log), [Const('ab'), Const(' '), mk('SLine', Const(2)), Const('c ')], lazy=True)
 
     def p_render_plain(self, it, a, k, n):
         self.log.append(('render-plain', list(a), dict(k)))
@@ -266,17 +269,33 @@ def run(repo, rep):
             rend = [e for e in rec.log if e[0] in ('render-plain', 'render-color')]
             n += 1
             okr = len(rend) == 1 and rend[0][0] == kind and len(rend[0][1]) >= 2 and prov(rend[0][1][1]) == sd
+            # the other shape: the entry point walks the stream itself and writes line by line - what it wrote is the text of the
+            # stream (texts in order, line break + indentation, the last text of a line without its trailing blanks)
+            text_writes = [e for e in rec.log if e[0] == 'write']
+            lazy_shape = False
+            if not rend and kind == 'render-plain' and text_writes:
+                tgt = text_writes[0][1]
+                pieces = [e[2][0] for e in text_writes if e[1] is tgt and e[2]]
+                body = pieces[:-1] if (ename != 'pformat' and pieces and isinstance(pieces[-1], Const) and pieces[-1].v == '\n') else pieces
+                if all(isinstance(x, Const) and isinstance(x.v, str) for x in body) and ''.join(x.v for x in body) == 'ab\n  c' \
+                        and all(e[1] is tgt for e in text_writes):
+                    lazy_shape = okr = True
             rep.check(okr, 'C18.a', '%s:renders-same-sdocs' % ename, f.where, 'renders the sdocs it computed with the %s renderer' % ('plain' if kind == 'render-plain' else 'coloured'),
                       '%s renders %s (expected exactly one %s of %s)' % (ename, [(e[0], [prov(x) for x in e[1]]) for e in rend], kind, sd), nontrivial=True)
             if not okr:
                 continue
-            rstream = rend[0][1][0]
+            rstream = rend[0][1][0] if rend else text_writes[0][1]
             writes = [e for e in rec.log if e[0] == 'write']
+            if lazy_shape:
+                # the text was written by the entry point itself: what remains to be judged is the end string
+                writes = writes[-1:] if ename != 'pformat' else []
+                rend = [text_writes[0]]
             if ename == 'pformat':
                 n += 1
                 dflt = {'newline': '\n', 'separator': ' '}
-                extra = dict(zip(['newline', 'separator'], rend[0][1][2:]))
-                extra.update(rend[0][2])
+                extra = dict(zip(['newline', 'separator'], rend[0][1][2:])) if not lazy_shape else {}
+                if not lazy_shape:
+                    extra.update(rend[0][2])
                 extra_ok = all(k_ in dflt and isinstance(v_, Const) and v_.v == dflt[k_] for k_, v_ in extra.items())
                 rep.check(prov(rstream).startswith('StringIO#') and prov(prs[0].value) == prov(rstream) + '.getvalue()' and not writes
                           and extra_ok, 'C18.a', 'pformat:returns-stream-value', f.where,
